@@ -329,6 +329,9 @@ impl Property for C06 {
         }
         v
     }
+    fn fuzz_sequences(&self) -> Vec<(&'static str, usize)> {
+        vec![("/hist/ops", 40)]
+    }
     fn run(&self, case: &Case06) -> Outcome {
         let mut out = Outcome::default();
         let mut w = World::new(&case.hist.cfg);
